@@ -137,8 +137,29 @@ def summary (w : World) : String :=
     lab w i ++ ":" ++ (if w.isClosed i then "X" else if w.reachable i then "L" else "g")
   String.intercalate " " hs
 
-def runScn (s : Scn) (fault : Option Nat) : String :=
-  let w0 := initWorld s
+def pCls : P Exc := do
+  let t ← word
+  match t with
+  | "value" => pure .pil
+  | "attr" => pure .attrError
+  | "stop" => pure .stopIter
+  | "custom" => pure .custom
+  | "ki" => pure .keyboardInterrupt
+  | _ => failure
+
+def pUOp : P UOp := do
+  let t ← word
+  match t with
+  | "o" => do let k ← nat; let ok ← bool; pure (.open_ k ok)
+  | "r" => do let i ← nat; pure (.render i)
+  | "c" => do let i ← nat; pure (.close i)
+  | _ => failure
+
+def fmtFlags (bs : List Bool) : String :=
+  if bs.isEmpty then "-" else String.join (bs.map fmtBool)
+
+def runScn (s : Scn) (fault : Option Nat) (cls : Exc := .pil) : String :=
+  let w0 := { initWorld s with faultExc := cls }
   let o := s.prog.run fault w0
   let w := o.w.quiesce
   let uac := w.log.any (fun e => match e with | .useAfterClose _ _ => true | _ => false)
@@ -185,6 +206,13 @@ def handler : Handler := fun op args =>
   | "bctor" => Wire.run (do
       let isPil ← bool; let nonNull ← bool
       pure (match imageCheck isPil nonNull with | some e => "err " ++ e | none => "ok")) args
+  | "resx" => Wire.run (do
+      let s ← pScn; let fault ← optOf nat; let cls ← pCls
+      pure ("ok " ++ runScn s fault cls)) args
+  | "urls" => Wire.run (do
+      let ops ← listOf pUOp
+      pure ("ok " ++ String.intercalate "|"
+        ((urlTrace {} ops).map fun (a, fl) => a ++ " " ++ fmtFlags fl))) args
   | "meth" => Wire.run (do
       let m ← pMethod; let animated ← bool; let frame ← bool
       pure ("ok " ++ (match effMethod m animated frame with
